@@ -46,13 +46,19 @@ def main():
     meta["steps"]["tests_with_change"] = {"pass": ok, "failed": failed}
     rc1, o1 = sh(["sh", "_out/demo.sh", os.path.join(wt, "target/debug/cicada")], cwd=wt, timeout=600)
     meta["steps"]["demo_with_change"] = {"rc": rc1, "tail": o1[-400:]}
-    sh("git stash -q", cwd=wt)
+    # NOTE: `git stash` is shared by all worktrees of a repository -- never use it here.
+    rc, cur = sh("git diff -- src Cargo.toml", cwd=wt)
+    open(os.path.join(wt, "_seed_cur.diff"), "w").write(cur)
+    meta["steps"]["worktree_diff_equals_patch"] = (cur.strip() == open(os.path.join(out_dir, "patch.diff")).read().strip()) \
+        if os.path.exists(os.path.join(out_dir, "patch.diff")) else None
+    sh("git apply -R _seed_cur.diff", cwd=wt)
     try:
         sh("cargo build --offline 2>&1 | tail -1", cwd=wt)
         rc0, o0 = sh(["sh", "_out/demo.sh", os.path.join(wt, "target/debug/cicada")], cwd=wt, timeout=600)
         meta["steps"]["demo_without_change"] = {"rc": rc0, "tail": o0[-400:]}
     finally:
-        sh("git stash pop -q", cwd=wt)
+        sh("git apply _seed_cur.diff", cwd=wt)
+        os.remove(os.path.join(wt, "_seed_cur.diff"))
     confirmed = ok and rc1 != 0 and rc0 == 0
     meta["confirmed"] = confirmed
     checks = {}
